@@ -407,7 +407,7 @@ theorem filterMap_ids_sublist {β : Type} (ψ : Xml → Option Xml) (f : Xml →
       rw [List.filterMap_cons, List.filterMap_cons, hψ x x' hp]
       split
       · exact ih
-      · exact List.Sublist.cons₂ _ ih
+      · exact List.Sublist.cons_cons _ ih
 
 theorem find_filterMap (P : Xml → Bool) (ψ : Xml → Option Xml) : ∀ (L : List Xml),
     (∀ x ∈ L, P x = true → ψ x = some x) → (∀ x ∈ L, P x = false → ∀ x', ψ x = some x' → P x' = false) →
@@ -823,11 +823,22 @@ theorem mergeLevel_spec (cfg : PartCfg) (kids ks1 : List Xml) (hn : (kids.filter
   obtain ⟨f1, f2, f3, f4⟩ := fold_groups gs kids [] hn (by simpa using hf.symm) (runs_ne_nil _ _ hr)
   exact ⟨gs, hr, hf, hall, rfl, by simpa using f1, f2, f3, f4⟩
 
-/-- **merging the merged children again changes nothing** -/
-theorem mergeLevel_idem (cfg : PartCfg) (kids ks1 : List Xml) (hn : (kids.filterMap Xml.id?).Nodup)
+theorem keyOf_ok (cfg : PartCfg) (x : Xml) (k : ElemKey) (h : elemKey cfg x = .ok k) : keyOf cfg x = k := by
+  simp [keyOf, h]
+
+/-- the merged children, described for a second pass: their content-bearing members are the groups
+`gs.map repL`, which are again maximal runs of one key, all with a key, none of them merging -/
+theorem merged_level (cfg : PartCfg) (kids ks1 : List Xml) (hn : (kids.filterMap Xml.id?).Nodup)
     (hpc : PrefixConsistent kids) (h : mergeLevel cfg kids = .ok ks1) :
-    mergeLevel cfg ks1 = .ok ks1 := by
-  obtain ⟨gs, hr, hf, hall, _, f1, _, _, _⟩ := mergeLevel_spec cfg kids ks1 hn h
+    ∃ gs, Runs (keyOf cfg) gs ∧ gs.flatten = kids.filter hasContent ∧
+      (∀ x ∈ kids.filter hasContent, elemKey cfg x = .ok (keyOf cfg x)) ∧
+      ks1 = gs.foldl applyGroup kids ∧
+      ks1.filter hasContent = (gs.map repL).flatten ∧
+      (∀ k ∈ ks1, k ∈ kids ∨ ∃ g ∈ gs, merges g = true ∧ k = mergedOf g) ∧
+      (∀ P : Xml → Bool, TagOnly P → (∀ x ∈ kids, P x = true → hasContent x = false) → ks1.find? P = kids.find? P) ∧
+      Runs (keyOf cfg) (gs.map repL) ∧
+      (∀ x ∈ (gs.map repL).flatten, elemKey cfg x = .ok (keyOf cfg x)) := by
+  obtain ⟨gs, hr, hf, hall, hfold, f1, _, f3, f4⟩ := mergeLevel_spec cfg kids ks1 hn h
   have hsub : ∀ g ∈ gs, ∀ x ∈ g, x ∈ kids ∧ hasContent x = true := by
     intro g hg x hx
     have : x ∈ kids.filter hasContent := by rw [← hf]; exact List.mem_flatten.2 ⟨g, hg, hx⟩
@@ -854,10 +865,9 @@ theorem mergeLevel_idem (cfg : PartCfg) (kids ks1 : List Xml) (hn : (kids.filter
     cases hmg : merges (a :: t) with
     | true =>
       refine ⟨mergedOf (a :: t), [], by simp [repL, hmg], ?_, by simp⟩
-      have := hkey a t hm hom hmg
-      simp [keyOf, this]
+      exact keyOf_ok cfg _ _ (hkey a t hm hom hmg)
     | false => exact ⟨a, t, by simp [repL, hmg], rfl, hom⟩
-  have hok : ∀ x ∈ (gs.map repL).flatten, ∃ k, elemKey cfg x = .ok k := by
+  have hok : ∀ x ∈ (gs.map repL).flatten, elemKey cfg x = .ok (keyOf cfg x) := by
     intro x hx
     obtain ⟨g', hg', hxg⟩ := List.mem_flatten.1 hx
     obtain ⟨g, hg, rfl⟩ := List.mem_map.1 hg'
@@ -866,12 +876,20 @@ theorem mergeLevel_idem (cfg : PartCfg) (kids ks1 : List Xml) (hn : (kids.filter
     | true =>
       simp only [repL, hmg, if_true, List.mem_singleton] at hxg
       subst hxg
-      exact ⟨_, hkey a t hg hom hmg⟩
+      have := hkey a t hg hom hmg
+      rw [keyOf_ok cfg _ _ this]; exact this
     | false =>
       simp only [repL, hmg, Bool.false_eq_true, if_false] at hxg
-      exact ⟨_, hall x (List.mem_filter.2 (hsub _ hg x hxg))⟩
+      exact hall x (List.mem_filter.2 (hsub _ hg x hxg))
+  exact ⟨gs, hr, hf, hall, hfold, f1, f3, f4, hruns', hok⟩
+
+/-- **merging the merged children again changes nothing** -/
+theorem mergeLevel_idem (cfg : PartCfg) (kids ks1 : List Xml) (hn : (kids.filterMap Xml.id?).Nodup)
+    (hpc : PrefixConsistent kids) (h : mergeLevel cfg kids = .ok ks1) :
+    mergeLevel cfg ks1 = .ok ks1 := by
+  obtain ⟨gs, _, _, _, _, f1, _, _, hruns', hok⟩ := merged_level cfg kids ks1 hn hpc h
   unfold mergeLevel
-  rw [f1, keyed_of_ok cfg _ hok]
+  rw [f1, keyed_of_ok cfg _ (fun x hx => ⟨_, hok x hx⟩)]
   simp only [ok_bind]
   rw [groupAdj_of_runs _ _ hruns']
   show Except.ok ((gs.map repL).foldl applyGroup ks1) = Except.ok ks1
